@@ -65,12 +65,16 @@ Proof.
 Qed.
 Print Assumptions C07_adjacent_level_above_two_thirds_refuted.
 
-(** The hypothesis "trust level fields below 2^63" of C07_tm_accept_sound is
-    necessary: tendermint converts the uint64 numerator and denominator to int64.
-    Level 0x5555555555555555 / 0xFFFFFFFFFFFFFFFF (exactly 1/3, accepted by
-    light.ValidateTrustLevel) gives int64(den) = -1, hence a NEGATIVE threshold:
-    for a trusted set of total power 1 a non-adjacent header is accepted on the
-    signature of a zero-power trusted validator alone. *)
+(** tm-trust-level-int64 (repaired by /repo commit d656e11): ClientState.Validate
+    as it was admitted every trust level tendermint's ValidateTrustLevel admits;
+    tendermint converts numerator and denominator to int64.  Level
+    0x5555555555555555 / 0xFFFFFFFFFFFFFFFF (exactly 1/3) gives int64(den) = -1,
+    hence a NEGATIVE threshold: for a trusted set of total power 1 a non-adjacent
+    header is accepted on the signature of a zero-power trusted validator alone.
+    The real code accepted this witness (corpus history 100005); since the fix
+    Validate refuses the configuration.  The explicit "fields below 2^63"
+    hypothesis of C07_tm_accept_sound is therefore necessary for configurations
+    that bypass Validate. *)
 Definition tl_trusted : list pvalidator := [nv_val x01 1; nv_val x05 0].
 Definition tl_own : list pvalidator := [nv_val x05 0; nv_val x03 1].
 Definition tl_client : client_state := nv_client 6148914691236517205 18446744073709551615.
@@ -84,8 +88,8 @@ Theorem C07_trust_level_int64_refuted :
     h_signed hdr = Some sh /\ sh_header sh = Some h /\ sh_commit sh = Some c /\
     hd_height h <> Z.of_N (h_hgt (h_trusted_height hdr)) + 1 /\
     valset_from_proto (h_trusted_vals hdr) = Ok (tvals, ttot) /\
-    (* the level is within [1/3, 1] *)
-    (cs_tl_den cs <= 3 * cs_tl_num cs)%N /\ (cs_tl_num cs <= cs_tl_den cs)%N /\
+    (* admitted by Validate before the fix, refused now *)
+    client_validate_old cs = true /\ client_validate cs = false /\
     signed_trusted nv_verify_sig (hd_chain_id h) c (hash_input tvals) = 0 /\ total_of (hash_input tvals) = 1.
 Proof.
   exists tl_client, tl_store, tl_header, 160.
@@ -94,7 +98,7 @@ Proof.
   split; [reflexivity|]. split; [reflexivity|]. split; [reflexivity|].
   split; [vm_compute; discriminate|].
   split; [vm_compute; reflexivity|].
-  split; [vm_compute; discriminate|]. split; [vm_compute; discriminate|].
+  split; [vm_compute; reflexivity|]. split; [vm_compute; reflexivity|].
   split; vm_compute; reflexivity.
 Qed.
 Print Assumptions C07_trust_level_int64_refuted.
